@@ -5,6 +5,7 @@ Conformance: scenarios of Gen_Reconstruct and random plans run end to end throug
 harness's HTTP server (reconstruction endpoint + blob store serving really serialized xorbs); both writers (one
 process each, HF_XET_RECONSTRUCT_WRITE_SEQUENTIALLY), cache off / cold / warm, one URL per fetch range and one URL per
 xorb; the recorded steps and the output file (as chunk-id pieces) are validated by Trace_Reconstruct.tla."""
+import concurrent.futures
 import json
 import os
 import random
@@ -45,13 +46,17 @@ def models(ctx, thorough):
 
 
 def record(ctx, w, label, counts, env=None, **kw):
-    """Runs the driver once per writer and validates both traces."""
-    ok = True
-    for writer, wenv in WRITERS.items():
-        e = dict(wenv)
+    """Runs the driver once per writer (the two processes run side by side) and validates both traces."""
+    def one(writer):
+        e = dict(WRITERS[writer])
         e.update(env or {})
         t = os.path.join(w, "%s_%s.ndjson" % (label, writer))
-        r = vlib.xv("reconstruct", env=e, out=t, dir=os.path.join(w, "run_%s_%s" % (label, writer)), timeout=1500, **kw)
+        r = vlib.xv("reconstruct", env=e, out=t, dir=os.path.join(w, "run_%s_%s" % (label, writer)), timeout=2400, **kw)
+        return writer, t, r
+    with concurrent.futures.ThreadPoolExecutor(max_workers=2) as ex:
+        results = list(ex.map(one, list(WRITERS)))
+    ok = True
+    for writer, t, r in results:
         if r["writer"] != writer:
             raise vlib.ToolError("driver ran writer %s, expected %s" % (r["writer"], writer))
         for k, v in r["counts"].items():
@@ -71,8 +76,8 @@ def check(ctx):
     counts = {}
     gens = {}
     # (cfg, how many scenarios are replayed; None = all of them)
-    plan = [("small", "Gen_Reconstruct_small.cfg", None), ("mid", "Gen_Reconstruct.cfg", None if thorough else 150),
-            ("t3", "Gen_Reconstruct_t3.cfg", None if thorough else 150)]
+    plan = [("small", "Gen_Reconstruct_small.cfg", None), ("mid", "Gen_Reconstruct.cfg", None if thorough else 100),
+            ("t3", "Gen_Reconstruct_t3.cfg", None if thorough else 100)]
     for label, cfg, take in plan:
         scn = ctx.generate("Gen_Reconstruct", cfg, name="gen_reconstruct_" + label)
         gens[label] = {"generated": len(scn), "replayed": len(scn) if take is None else min(take, len(scn))}
@@ -84,13 +89,13 @@ def check(ctx):
         with open(sp, "w") as f:
             for s in scn:
                 f.write(json.dumps(s) + "\n")
-        record(ctx, w, label, counts, mode="scn", seed=ctx.seed, steer=3, fresh=25, **{"in": sp})
+        record(ctx, w, label, counts, mode="scn", seed=ctx.seed, steer=5, fresh=60, **{"in": sp})
     ctx.notes["scenarios"] = gens
     # every (file, byte range, plan) of the `small` bound runs in all 12 mode combinations
     ctx.exhaustive = True
     k = 5 if thorough else 1
     record(ctx, w, "random", counts, mode="random", n=40 * k, terms=12, seed=ctx.seed, fresh=8)
-    record(ctx, w, "randombig", counts, mode="random", n=6 * k, terms=300, big=1, seed=ctx.seed + 1, fresh=3)
+    record(ctx, w, "randombig", counts, mode="random", n=3 * k, terms=300, big=1, seed=ctx.seed + 1, fresh=2)
     record(ctx, w, "random2gets", counts, env={"HF_XET_NUM_CONCURRENT_RANGE_GETS": "2"}, mode="random", n=10 * k, terms=40,
            seed=ctx.seed + 2, fresh=5)
     ctx.notes["event_counts"] = counts
